@@ -197,8 +197,8 @@ def matrix_history(cfg, sizes, kinds):
     for j, sf in enumerate(sorted(sufs) + [".zst.age"]):
         n, e, dname, m = "/n%d%s" % (j, sf), "/e%d%s" % (j, sf), "/d%d%s" % (j, sf), "/m%d%s" % (j, sf)
         calls += [{"op": "createfile", "name": n, "blob": big}, {"op": "createfile", "name": e, "blob": empty}, {"op": "mkdir", "name": dname, "perm": 0o755},
-                  {"op": "chmod", "name": n, "perm": 0o600}, {"op": "chmod", "name": e, "perm": 0o600},
-                  {"op": "rename", "name": n, "name2": m}, {"op": "createfile", "name": dname + "/c" + sf, "blob": big}]
+                  {"op": "chmod", "name": n, "perm": 0o600, "obs": ["tape", "prefix", "tree", "rebuild"]}, {"op": "chmod", "name": e, "perm": 0o600, "obs": ["tape", "prefix", "tree", "rebuild"]},
+                  {"op": "rename", "name": n, "name2": m, "obs": ["tape", "prefix", "tree", "rebuild"]}, {"op": "createfile", "name": dname + "/c" + sf, "blob": big}]
         expect[m] = big
         expect[e] = empty
         expect[dname + "/c" + sf] = big
